@@ -879,7 +879,7 @@ fn main() {
         std::process::exit(if out.first_violation.is_none() && (model.is_null() || mtail == out.line_tail) { 0 } else { 1 });
     }
 
-    let n_random = if args.get("corpus-only").is_some() { 0 } else if args.thorough() { 8000 } else { 350 };
+    let n_random = if args.get("corpus-only").is_some() { 0 } else if args.thorough() { 8000 } else { 300 };
     let mut rng = Rng::new(args.seed);
     let mut cases: Vec<(String, Scenario, Plan)> =
         corpus().into_iter().map(|(n, s, l)| (format!("corpus.{}", n), s, Plan::Replay(l))).collect();
@@ -889,6 +889,7 @@ fn main() {
         cases.push(("random".to_string(), scn, Plan::Generate(r.fork())));
     }
 
+    let mut shrunk_per_class: std::collections::BTreeMap<String, u32> = std::collections::BTreeMap::new();
     let verbose = args.get("verbose").is_some();
     let limit: usize = args.get("limit").and_then(|s| s.parse().ok()).unwrap_or(usize::MAX);
     let t_all = std::time::Instant::now();
@@ -940,27 +941,36 @@ fn main() {
         }
         if let Some((at, what)) = &out.first_violation {
             report.bump("violating_runs");
-            // keep the prefix up to the violating step, then shrink it
+            // the class of the failing prefix, by the extracted classifier
             let prefix: Vec<Label> = out.sched[..=*at].to_vec();
-            let shrunk = ddmin(&prefix, &mut |cand: &[Label]| run_impl(&scn, Plan::Replay(cand.to_vec())).1.first_violation.is_some());
-            let (h, o) = run_impl(&scn, Plan::Replay(shrunk));
-            let (sched, what2) = match &o.first_violation {
-                Some((_, w)) => (o.sched.clone(), w.clone()),
-                None => (out.sched.clone(), what.clone()),
-            };
-            // the class of the (shrunk) failing case, by the extracted classifier
-            let cl = if o.first_violation.is_some() {
-                let l = format!("{}|S {}", h, show_sched(&o.sched));
-                split_class(&model.ask(&l)).1
-            } else {
-                class.clone()
-            };
-            let cname = match cl.as_str() {
+            let pl = format!("{}|S {}", head, show_sched(&prefix));
+            let pclass = split_class(&model.ask(&pl)).1;
+            let cname = |cl: &str| match cl {
                 "K1" => "inflight-ack",
                 "K2" => "failed-flush",
                 _ => "",
             };
-            report.oracle_violation(cname, &format!("{} [{}]", what2, origin), case_json(&scn, &sched));
+            let seen = shrunk_per_class.entry(pclass.clone()).or_insert(0u32);
+            if *seen < 2 || pclass.is_empty() {
+                *seen += 1;
+                // shrink the prefix up to the violating step
+                let shrunk = ddmin(&prefix, &mut |cand: &[Label]| run_impl(&scn, Plan::Replay(cand.to_vec())).1.first_violation.is_some());
+                let (h, o) = run_impl(&scn, Plan::Replay(shrunk));
+                match &o.first_violation {
+                    Some((at2, w)) => {
+                        let p2: Vec<Label> = o.sched[..=*at2].to_vec();
+                        let l = format!("{}|S {}", h, show_sched(&p2));
+                        let cl = split_class(&model.ask(&l)).1;
+                        report.oracle_violation(cname(&cl), &format!("{} [{}]", w, origin), case_json(&scn, &p2));
+                    }
+                    None => report.oracle_violation(cname(&pclass), &format!("{} [{}]", what, origin), case_json(&scn, &prefix)),
+                }
+            } else if *seen < 6 {
+                // further runs of a known class: recorded unshrunk (a few), counted in the histogram
+                *seen += 1;
+                report.oracle_violation(cname(&pclass), &format!("{} [{}]", what, origin), case_json(&scn, &prefix));
+            }
+            report.bump(&format!("violating_class.{}", if pclass.is_empty() { "unclassified" } else { &pclass }));
         }
     }
     report.notes.push(format!("model calls: {}", model.calls));
